@@ -46,3 +46,25 @@ def add_value_info_target(eng):
                  "value._type is None or fresh(value._type)"],
         raises_default=[], modifies=None, assert_mode="raise",
         dead=["value = _core.Value(name=proto.name)"]))
+
+
+def add_tensor_shape_target(eng):
+    """deserialize_tensor_shape(proto): the Shape returned is a new object on every call (a deserialized shape is never shared
+    between values: frozen or not, `value.shape is other.shape` would make a later replacement of one value's dimensions
+    denotations or a merge visible through the other, and the serialized protos of two round trips would alias)."""
+    schema.core_ir(eng)
+    schema.opaque_class(eng, "ShapeProtoLike")
+
+    def new_shape(e, p, args, kwargs, node):
+        return [(p, e.new_object(p, "Shape"))]
+
+    def setup(e, p, env):
+        from pyvc.types import VFunc
+        e.lenient = True
+        e.lib_models["serde.Shape"] = new_shape
+        # the per-dimension helper is a pure function of one DimensionProto: opaque here
+        e.functions[f"{SER}.deserialize_dimension"] = FnDecl(f"{SER}.deserialize_dimension", "opaque", raises={"AnyException": []})
+        e.global_overrides[("onnx_ir._core", "Shape")] = VFunc("lib", "serde.Shape", "Shape")
+    eng.add_target(Target("deserialize_tensor_shape", mod=SER, qual="deserialize_tensor_shape", setup=setup,
+        params=dict(proto=TRef("ShapeProtoLike")), requires=["nonnull(proto)"],
+        ensures=["fresh(result)"], raises_default=[], modifies=None, assert_mode="raise", ret=TRef("Shape")))
